@@ -44,7 +44,8 @@ type reqCall struct {
 	gotName   string
 	gotType   string
 	retStep   int
-	pad int // bytes of padding in the request's payload
+	pad    int    // bytes of padding in the request's payload
+	qualNS string // non-empty: the request's start element is qualified with this namespace
 	// when the call's context ended or will end (its deadline, or the instant of the explicit cancel if that came first)
 	ctxEndAt time.Duration
 }
@@ -118,6 +119,10 @@ func doReq(ctx context.Context, s *xmpp.Session, c *reqCall) {
 	iq := stanza.IQ{ID: c.id, Type: stanza.GetIQ}
 	if len(c.id)%2 == 0 {
 		iq.Type = stanza.SetIQ
+	}
+	if c.qualNS != "" {
+		// a request whose start element names the stream's namespace (an IQ rebuilt from a received one, for instance)
+		iq.XMLName = xml.Name{Space: c.qualNS, Local: "iq"}
 	}
 	var resp xmlstream.TokenReadCloser
 	var err error
@@ -262,6 +267,9 @@ func runC06(rc *RC) {
 			}
 			if ch.Chance("workload", 1, 4) {
 				c.cancelAt = time.Duration(ch.Range("workload", 0, 20)) * 20 * time.Millisecond
+			}
+			if c.stanza == "iq" && ch.Chance("workload", 1, 3) {
+				c.qualNS = e.NS
 			}
 			if wf {
 				// the write-fault configuration: nobody gives up for three minutes, so that a serve loop that waits for a
